@@ -3,6 +3,8 @@ Driver for C19 (workers and promises).  Core-only.
 
 Inputs (harness/props/c19.go)
   pf <threads> <outcap> <incap> <ops> <close> <sched>      Processor, forced schedule
+  pg <threads> <outcap> <incap> <ops;ops;…> <collectors> <close> <sched>
+                                                            the same with several producers / collectors
   pu <threads> <gomaxprocs> <outcap> <incap> <ops> <mode>  Processor, free running
   mp <n> <threads> <maxchunk> <errAt>                       Map, free running
   pp <mrl> <calls> <sched>                                  Promise, forced schedule
@@ -19,6 +21,7 @@ import Biogo.Go.Wire
 import Biogo.Go.LTS
 import Biogo.Model.Processor
 import Biogo.Model.Promise
+import Biogo.Model.PromiseCond
 
 namespace Biogo.Drive.C19
 open Biogo.Wire Biogo.LTS
@@ -142,115 +145,153 @@ def subMultiset : List Res → List Res → Bool
   | [], _ => true
   | x :: xs, b => if b.contains x then subMultiset xs (b.erase x) else false
 
-/-- actor numbering: workers 0..t-1, then producer, collector, stopper, waiter -/
-def procActor (t : Nat) (k : Nat) : Actor :=
+/-- actor numbering: workers 0..t-1, then the producers, the collectors, stopper, waiter -/
+def procActor (t np nc : Nat) (k : Nat) : Actor :=
   if k < t then .worker k
-  else if k == t then .producer
-  else if k == t + 1 then .collector
-  else if k == t + 2 then .stopper
+  else if k < t + np then .producer (k - t)
+  else if k < t + np + nc then .collector (k - t - np)
+  else if k == t + np + nc then .stopper
   else .waiter
 
-def procMacro (c : Cfg) : Macro St Actor where
-  sys := sys c
-  n := c.threads + 4
-  act := procActor c.threads
-  atHook := fun s k =>
-    if k < c.threads then
-      match s.ws[k]? with
-      | some .idle | some (.send _) | some .tokret | some .done => true
-      | _ => false
-    else if k == c.threads + 1 then s.cpc != .receiving
-    else true
-  finished := fun s k =>
-    if k < c.threads then s.ws[k]? == some .done
-    else if k == c.threads then s.todo.isEmpty && (s.inClosed || !c.wantClose)
-    else if k == c.threads + 1 then s.cpc == .closedSeen
-    else if k == c.threads + 2 then s.stop
-    else s.waitReturned
-  parkedAt := fun s k =>
-    if k < c.threads then
-      match s.ws[k]? with
-      | some .idle => 'i'
-      | some (.send _) => 'r'
-      | some .tokret => 't'
-      | _ => '?'
-    else 'P'
-  dead := fun s => s.crashed.isSome
+def procMacro (c : Cfg) : Macro St Actor :=
+  let t := c.threads
+  let np := c.prods.length
+  let nc := c.ncoll
+  { sys := sys c
+    n := t + np + nc + 2
+    act := procActor t np nc
+    atHook := fun s k =>
+      if k < t then
+        match s.ws[k]? with
+        | some .idle | some (.send _) | some .tokret | some .done => true
+        | _ => false
+      else if t + np ≤ k && k < t + np + nc then s.cpcs[k - t - np]? != some .receiving
+      else true
+    finished := fun s k =>
+      if k < t then s.ws[k]? == some .done
+      else if k < t + np then
+        (s.todo.getD (k - t) []).isEmpty && (k != t || s.inClosed || !c.wantClose)
+      else if k < t + np + nc then s.cpcs[k - t - np]? == some .closedSeen
+      else if k == t + np + nc then s.stop
+      else s.waitReturned
+    parkedAt := fun s k =>
+      if k < t then
+        match s.ws[k]? with
+        | some .idle => 'i'
+        | some (.send _) => 'r'
+        | some .tokret => 't'
+        | _ => '?'
+      else 'P'
+    dead := fun s => s.crashed.isSome }
 
-/-- schedule letters: digits = workers, p c s w -/
-def parseProcSched (t : Nat) (s : String) : Option (List Nat) :=
+/-- schedule letters: digits = workers; p q r = producers 0 1 2; c d e = collectors 0 1 2;
+    s = stopper; w = waiter -/
+def parseProcSched (t np nc : Nat) (s : String) : Option (List Nat) :=
   if s == "-" then some [] else
   s.toList.mapM fun ch =>
     if ch.isDigit then (let k := ch.toNat - 48; if k < t then some k else none)
-    else if ch == 'p' then some t
-    else if ch == 'c' then some (t + 1)
-    else if ch == 's' then some (t + 2)
-    else if ch == 'w' then some (t + 3)
+    else if ch == 'p' || ch == 'q' || ch == 'r' then
+      (let p := ch.toNat - 112; if p < np then some (t + p) else none)
+    else if ch == 'c' || ch == 'd' || ch == 'e' then
+      (let k := ch.toNat - 99; if k < nc then some (t + np + k) else none)
+    else if ch == 's' then some (t + np + nc)
+    else if ch == 'w' then some (t + np + nc + 1)
     else none
 
 def showCrash : Crash → String
   | .doubleClose => "crash:close-of-closed-channel"
   | .sendOnClosed => "crash:send-on-closed-channel"
 
+/-- per-collector results `a,b;c;-` and per-collector closed bits `101` (one collector: the
+    format of the first wave, `res=a,b closed=1`) -/
 def procObs (_c : Cfg) (m : MSt St) : String :=
   match m.st.crashed with
   | some k => showCrash k
   | none =>
-    s!"t={"/".intercalate m.trace} res={showRess m.st.delivered} closed={showBool (m.st.cpc == .closedSeen)} wait={showBool m.st.waitReturned}"
+    let res := ";".intercalate (m.st.delivered.map showRess)
+    let closed := String.join (m.st.cpcs.map fun pc => showBool (pc == .closedSeen))
+    s!"t={"/".intercalate m.trace} res={res} closed={closed} wait={showBool m.st.waitReturned}"
 
-/-- drain order: workers, producer, collector, waiter (never the stopper) -/
-def procDrainOrder (t : Nat) : List Nat := List.range (t + 2) ++ [t + 3]
+/-- drain order: workers, producers, collectors, waiter (never the stopper) -/
+def procDrainOrder (t np nc : Nat) : List Nat := List.range (t + np + nc) ++ [t + np + nc + 1]
 
 /-- key=value fields of an observation -/
 def field (ts : List String) (key : String) : Option String :=
   (ts.find? (·.startsWith (key ++ "="))).map fun t => String.ofList (t.toList.drop (key.length + 1))
 
 /-- The statement of C19 for a Processor run, evaluated on the implementation's observation.
-    `stopUsed`: the schedule released the stopper.  `finalVec`: last status vector. -/
+    `stopUsed`: the schedule released the stopper.  The results of all collectors are taken
+    together: every result is some operation's (no duplicate, nothing invented); with the queue
+    closed every worker, every collector and `Wait` finish, and — no `Stop`, fewer panicking
+    operations than workers — every operation has its result. -/
 def procSpec (c : Cfg) (stopUsed : Bool) (obs : String) : Option String :=
   if obs.startsWith "crash:" then some ("no_panic " ++ obs)
   else if obs == "hang" then some "shutdown_clean hang"
   else
     let ts := tokens obs
-    match (field ts "res").bind parseRess, (field ts "closed").bind parseBool, (field ts "wait").bind parseBool with
-    | some res, some closed, some wait =>
+    let resLists := (field ts "res").bind fun r => (r.splitOn ";").mapM parseRess
+    let closedBits := (field ts "closed").bind fun b => b.toList.mapM fun ch => parseBool (String.singleton ch)
+    match resLists, closedBits, (field ts "wait").bind parseBool with
+    | some ress, some closeds, some wait =>
+      let res := ress.flatten
+      let closed := closeds.all id
       let want := c.ops.map eval
       let fin := match field ts "t" with
         | some t => ((t.splitOn "/").getLast?).getD ""
         | none => ""
       let finL := fin.toList
       let t := c.threads
-      let producerDone := finL.getD t 'D' == 'D'
-      if !subMultiset res want then some "each_op_one_result: a result that no operation produced, or a duplicate"
-      else if c.wantClose && producerDone &&
-              !((finL.take t).all (· == 'D') && finL.getD (t + 1) 'D' == 'D' && finL.getD (t + 3) 'D' == 'D' && closed && wait) then
-        some "shutdown_clean: queue closed but a worker, the collector or Wait did not finish"
-      else if c.wantClose && producerDone && !stopUsed && (c.ops.filter Op.isPan).length < c.threads && !subMultiset want res then
+      let np := c.prods.length
+      let nc := c.ncoll
+      let producersDone := ((finL.drop t).take np).all (· == 'D')
+      if ress.length ≠ nc || closeds.length ≠ nc then some "unparsable-observation"
+      else if !subMultiset res want then some "each_op_one_result: a result that no operation produced, or a duplicate"
+      else if c.wantClose && producersDone && nc > 0 &&
+              !((finL.take t).all (· == 'D') && ((finL.drop (t + np)).take nc).all (· == 'D') &&
+                finL.getD (t + np + nc + 1) 'D' == 'D' && closed && wait) then
+        some "shutdown_clean: queue closed but a worker, a collector or Wait did not finish"
+      else if c.wantClose && producersDone && nc > 0 && !stopUsed && (c.ops.filter Op.isPan).length < c.threads && !subMultiset want res then
         -- fewer panicking operations than workers: a worker survives and drains the queue
         some "each_op_one_result: an operation without a result"
       else none
     | _, _, _ => some "unparsable-observation"
 
+def parseProds (s : String) : Option (List (List Op)) := (s.splitOn ";").mapM parseOps
+
+def runPF (t oc ic : Nat) (prods : List (List Op)) (nc : Nat) (cl : Bool) (sc : String) (tag : String)
+    (obs : String) : Verdict :=
+  let np := prods.length
+  match parseProcSched t np nc sc with
+  | none => bad (tag ++ "-sched")
+  | some sched =>
+    let c : Cfg := { threads := t, outCap := oc, inCap := ic, prods := prods, ncoll := nc, wantClose := cl, fixed := true }
+    let stopUsed := sched.contains (t + np + nc)
+    let m := runMacro (procMacro c) sched (procDrainOrder t np nc)
+    let mo := procObs c m
+    let tags := [tag, s!"threads{t}", s!"ops{c.ops.length}", "nt"] ++
+      (if np != 1 then [s!"producers{np}"] else []) ++ (if nc != 1 then [s!"collectors{nc}"] else []) ++
+      (if m.amb then ["ambiguous"] else []) ++ (if stopUsed then ["stop"] else []) ++
+      (if c.ops.any Op.isPan then ["panic-op"] else []) ++ (if oc == 0 then ["unbuffered"] else [])
+    match procSpec c stopUsed obs with
+    | some why => fail why tags
+    | none => if mo == obs || m.amb then ok tags else diff mo tags
+
 def handlePF (inp : List String) (obs : String) : Verdict :=
   match inp with
   | [_, t, oc, ic, ops, cl, sc] =>
     match parseNat t, parseNat oc, parseNat ic, parseOps ops, parseBool cl with
-    | some t, some oc, some ic, some ops, some cl =>
-      match parseProcSched t sc with
-      | none => bad "pf-sched"
-      | some sched =>
-        let c : Cfg := { threads := t, outCap := oc, inCap := ic, ops := ops, wantClose := cl, fixed := true }
-        let stopUsed := sched.contains (t + 2)
-        let m := runMacro (procMacro c) sched (procDrainOrder t)
-        let mo := procObs c m
-        let tags := ["pf", s!"threads{t}", s!"ops{ops.length}", "nt"] ++
-          (if m.amb then ["ambiguous"] else []) ++ (if stopUsed then ["stop"] else []) ++
-          (if ops.any Op.isPan then ["panic-op"] else []) ++ (if oc == 0 then ["unbuffered"] else [])
-        match procSpec c stopUsed obs with
-        | some why => fail why tags
-        | none => if mo == obs || m.amb then ok tags else diff mo tags
+    | some t, some oc, some ic, some ops, some cl => runPF t oc ic [ops] 1 cl sc "pf" obs
     | _, _, _, _, _ => bad "pf"
   | _ => bad "pf"
+
+/-- `pg <threads> <outcap> <incap> <ops of producer 0>;<ops of producer 1>;… <collectors> <close> <sched>` -/
+def handlePG (inp : List String) (obs : String) : Verdict :=
+  match inp with
+  | [_, t, oc, ic, prods, nc, cl, sc] =>
+    match parseNat t, parseNat oc, parseNat ic, parseProds prods, parseNat nc, parseBool cl with
+    | some t, some oc, some ic, some prods, some nc, some cl => runPF t oc ic prods nc cl sc "pg" obs
+    | _, _, _, _, _, _ => bad "pg"
+  | _ => bad "pg"
 
 def handlePU (inp : List String) (obs : String) : Verdict :=
   match inp with
@@ -258,7 +299,7 @@ def handlePU (inp : List String) (obs : String) : Verdict :=
     match parseNat t, parseNat gmp, parseNat oc, parseNat ic, parseOps ops with
     | some t, some gmp, some oc, some ic, some ops =>
       let threads := if t > gmp || t < 1 then gmp else t
-      let c : Cfg := { threads := threads, outCap := oc, inCap := max ic 1, ops := ops, wantClose := true, fixed := true }
+      let c : Cfg := Cfg.single threads oc (max ic 1) ops true true
       let anyPan := ops.any Op.isPan
       let rel := if ops.length == 0 then "ops0" else if ops.length < threads then "ops<w"
                  else if ops.length == threads then "ops=w" else "ops>w"
@@ -276,8 +317,8 @@ def handlePU (inp : List String) (obs : String) : Verdict :=
           else if !(closed && wait) then fail "shutdown_clean" tags
           else
             -- model: the lowest-first schedule of the model (any schedule gives this multiset)
-            let m := runMacro (procMacro c) [] (procDrainOrder threads)
-            let mo := s!"res={showRess (sortRes m.st.delivered)} closed={showBool (m.st.cpc == .closedSeen)} wait={showBool m.st.waitReturned}"
+            let m := runMacro (procMacro c) [] (procDrainOrder threads 1 1)
+            let mo := s!"res={showRess (sortRes (allDelivered m.st))} closed={showBool (allSeen m.st)} wait={showBool m.st.waitReturned}"
             if (ops.filter Op.isPan).length ≥ threads || mo == obs then ok tags else diff mo tags
         | _, _, _ => fail "unparsable-observation" tags
     | _, _, _, _, _ => bad "pu"
@@ -378,16 +419,22 @@ def showRet : Ret → String
   | .unit => "u"
   | .res r => showResP r
 
-def promMacro (c : Cfg) : Macro St Nat where
-  sys := sys c
+open Biogo.PromiseCond in
+/-- the promise protocol with the condition variable spelled out (`Biogo.PromiseCond.fsys`, a
+    refinement of `Biogo.Promise.sys`: Properties/C19_cond.lean).  A Wait that goes to sleep on
+    the condition variable, or has been woken and is on its way back to the mailbox, is not at a
+    hook point: it stays released and shows as blocked (`B`) in the status vector. -/
+def promMacro (c : FCfg) : Macro FSt Nat where
+  sys := fsys c
   n := c.calls.length
   act := id
-  atHook := fun _ _ => true
+  atHook := fun s k => match s.pcs[k]? with | some .sleeping | some .woken => false | _ => true
   finished := fun s k => match s.pcs[k]? with | some (.done _) => true | _ => false
   parkedAt := fun s k => match s.pcs[k]? with | some (.borrowed _) => 'b' | _ => 'P'
   dead := fun _ => false
 
-def promObs (m : MSt St) : String :=
+open Biogo.PromiseCond in
+def promObs (m : MSt FSt) : String :=
   let rets := m.st.pcs.map fun p => match p with | .done r => showRet r | _ => "-"
   s!"t={"/".intercalate m.trace} ret={",".intercalate rets}"
 
@@ -395,9 +442,20 @@ def parseSchedLetters (n : Nat) (s : String) : Option (List Nat) :=
   if s == "-" then some [] else
   s.toList.mapM fun ch => let k := ch.toNat - 97; if ch.toNat ≥ 97 && k < n then some k else none
 
-/-- The statement of C19 for an immutable promise (calls: Fulfill of non-nil values, Fail with
-    non-nil errors, Wait), evaluated on the implementation's returns.  `calls` includes the
-    final probing Wait appended by the harness. -/
+/-- The statement of C19 for a promise run, evaluated on the implementation's returns.
+    `calls` includes the final probing Wait appended by the harness (released last, by the drain).
+
+    Every flag combination and every kind of call ("without … deadlock"): a Fulfill, Fail,
+    Recover or Break always returns; and when the probing Wait returned — the promise holds a
+    Result at the end — no other Wait may still be blocked.
+
+    Immutable promise whose calls are Fulfill, Fail, Wait (any values, nil included) and Recover
+    on a *non-recoverable* promise (a refused Recover): exactly one Fulfill/Fail reports success,
+    every call returns when a Fulfill/Fail exists, and every Wait delivers the winner's Result
+    (with relay: possibly with the relayed error).
+
+    Mutable promise whose calls are Fulfill and Wait: every Fulfill succeeds; a Wait delivers
+    the value of one of them. -/
 def promSpec (f : Flags) (calls : List Call) (obs : String) : Option String :=
   if obs.startsWith "crash:" then some ("no_panic " ++ obs)
   else if obs == "hang" then some "no_deadlock hang"
@@ -407,21 +465,43 @@ def promSpec (f : Flags) (calls : List Call) (obs : String) : Option String :=
     | some ret, some t =>
       let rets := ret.splitOn ","
       if rets.length ≠ calls.length then some "unparsable-observation" else
-      let inScope := !f.mutable && calls.all fun c => match c with
-        | .fulfill (some _) => true
-        | .fail _ (some _) => true
+      let cr := calls.zip rets
+      let probeReturned := (rets.getLast?).getD "-" != "-"
+      if cr.any (fun (c, r) => c != .wait && r == "-") then
+        some "no_deadlock: a Fulfill/Fail/Recover/Break never returned"
+      else if probeReturned && rets.any (· == "-") then
+        some "no_deadlock: a Wait is blocked although the promise holds a Result"
+      else
+      -- mutable promise with Fulfill and Wait callers only ("Mutable promises may have their value
+      -- state changed with subsequent Fulfill calls"): every Fulfill succeeds, and a Wait
+      -- delivers the value of one of them, without error
+      let mutScope := f.mutable && calls.all fun c => match c with
+        | .fulfill _ => true
         | .wait => true
         | _ => false
+      if mutScope && cr.any (fun (c, r) => match c with | .fulfill _ => r != "ok" | _ => false) then
+        some "mutable_fulfill_replaces: a Fulfill on a mutable promise that carries no error did not succeed"
+      else if mutScope && cr.any (fun (c, r) => c == .wait && r != "-" &&
+          !(calls.any fun c' => match c' with | .fulfill v => r == showResP ⟨v, none⟩ | _ => false)) then
+        some "mutable_fulfill_replaces: a Wait delivered a Result that no Fulfill supplied"
+      else
+      let inScope := !f.mutable && calls.all fun c => match c with
+        | .fulfill _ => true
+        | .fail _ _ => true
+        | .wait => true
+        | .recover _ => !f.recoverable
+        | .brk => false
       if !inScope then none else
-      let cr := calls.zip rets
       -- the setters that report success
       let wins : List Res := cr.filterMap fun (c, r) => match c with
         | .fulfill v => if r == "ok" then some ⟨v, none⟩ else none
         | .fail v e => if r == "1" then some ⟨v, e⟩ else none
         | _ => none
-      let hasSetter := calls.any fun c => match c with | .wait => false | _ => true
+      let hasSetter := calls.any fun c => match c with | .fulfill _ => true | .fail _ _ => true | _ => false
       let fin := ((t.splitOn "/").getLast?).getD ""
       if wins.length > 1 then some "promise_single_assignment: more than one Fulfill/Fail succeeded"
+      else if cr.any (fun (c, r) => match c with | .recover _ => r != "0" | _ => false) then
+        some "seq_recover: Recover reported success on a non-recoverable promise"
       else if hasSetter && rets.any (· == "-") then some "no_deadlock: a call never returned"
       else if hasSetter && fin.toList.any (· != 'D') then some "no_deadlock: a call never returned"
       else if hasSetter && wins.length == 0 then some "promise_single_assignment: no Fulfill/Fail succeeded"
@@ -437,6 +517,48 @@ def promSpec (f : Flags) (calls : List Call) (obs : String) : Option String :=
         | _ => none
     | _, _ => some "unparsable-observation"
 
+/-- first step of the trace after which actor `k` is no longer parked at its start -/
+def relIdx (trace : List String) (k : Nat) : Nat :=
+  (trace.findIdx? fun v => v.toList.getD k 'P' != 'P').getD trace.length
+
+/-- first step of the trace after which actor `k` has returned -/
+def finIdx (trace : List String) (k : Nat) : Nat :=
+  (trace.findIdx? fun v => v.toList.getD k 'P' == 'D').getD (trace.length + 1)
+
+/-- The executable form of `promise_linearizable` (Properties/C19_promise.lean) on an
+    observation: is there an order of the calls that returned which (1) respects real time — a
+    call that had returned before another one was released comes first —, (2) executed
+    sequentially with `seqCall` on an empty promise gives every call the return value observed,
+    and (3) leaves the promise empty if some Wait never returned.  Depth-first over the calls
+    still to be placed (`rem`). -/
+def linSearch (f : Flags) (cr : List (Call × String)) (rel fin : List Nat) :
+    Nat → Option Res → List Nat → Bool
+  | 0, _, _ => false
+  | _ + 1, box, [] => cr.all (fun (_, r) => r != "-") || box.isNone
+  | fuel + 1, box, rem =>
+    rem.any fun k =>
+      rem.all (fun j => j == k || !(fin.getD j 0 < rel.getD k 0)) &&
+      match cr[k]? with
+      | some (call, r) =>
+        match seqCall f box call with
+        | some (b', ret) => showRet ret == r && linSearch f cr rel fin fuel b' (rem.erase k)
+        | none => false
+      | none => false
+
+def linearizableObs (f : Flags) (calls : List Call) (obs : String) : Bool :=
+  let ts := tokens obs
+  match field ts "ret", field ts "t" with
+  | some ret, some t =>
+    let rets := ret.splitOn ","
+    let trace := t.splitOn "/"
+    let cr := calls.zip rets
+    let n := cr.length
+    let rel := (List.range n).map (relIdx trace)
+    let fin := (List.range n).map (finIdx trace)
+    let returned := (List.range n).filter fun k => (rets.getD k "-") != "-"
+    linSearch f cr rel fin (n + 2) none returned
+  | _, _ => false
+
 def handlePP (inp : List String) (obs : String) : Verdict :=
   match inp with
   | [_, fl, calls, sc] =>
@@ -447,7 +569,7 @@ def handlePP (inp : List String) (obs : String) : Verdict :=
       match parseSchedLetters calls0.length sc with
       | none => bad "pp-sched"
       | some sched =>
-        let c : Cfg := { flags := f, calls := calls, fixed := true }
+        let c : PromiseCond.FCfg := { flags := f, calls := calls, wake := .broadcast }
         let m := runMacro (promMacro c) sched (List.range calls.length)
         let mo := promObs m
         let nwait := (calls0.filter (· == .wait)).length
@@ -455,13 +577,16 @@ def handlePP (inp : List String) (obs : String) : Verdict :=
           (if m.amb then ["ambiguous"] else []) ++ (if calls0.length ≥ 2 then ["nt"] else [])
         match promSpec f calls obs with
         | some why => fail why tags
-        | none => if mo == obs || m.amb then ok tags else diff mo tags
+        | none =>
+          if !linearizableObs f calls obs then
+            diff ("promise_linearizable: no sequential history of the promise laws explains the returns; model: " ++ mo) tags
+          else if mo == obs || m.amb then ok tags else diff mo tags
     | _, _ => bad "pp"
   | _ => bad "pp"
 
 end promise
 
-def ops : List String := ["pf", "pu", "mp", "pp"]
+def ops : List String := ["pf", "pg", "pu", "mp", "pp"]
 
 def handle (line : String) : String :=
   let (inp, obs) := splitCase line
@@ -469,6 +594,7 @@ def handle (line : String) : String :=
   if obs == "skip" then ({ status := "skip" } : Verdict).render else
   (match ts.head? with
    | some "pf" => handlePF ts obs
+   | some "pg" => handlePG ts obs
    | some "pu" => handlePU ts obs
    | some "mp" => handleMP ts obs
    | some "pp" => handlePP ts obs
